@@ -117,6 +117,42 @@ ROWS = [
   "cross at_least different from its last coverpoint's and a cross bin with a count between the two", "C13 report_type_percentage", "missed at first: percentages of the report model are now compared with get_coverage()/get_inst_coverage(); config x_atleast"),
  ("C13-m3", "C13", "/tmp/wt_C13", 3, "covergroup_types() returns and extends the registry's own first list",
   "two covergroup classes and two report/save calls in one registry lifetime", "C13 report_altered_state", "missed at first: second covergroup class in every world; registry lists are part of the state key"),
+ # ---- second round (ten fresh agents on the repaired tree); duplicates of first-round changes are not kept
+ ("C01-m4", "C01", "/tmp/wt2_C01", 3, "rand sets without a random field are dropped before solving (rand_info_builder.build)",
+  "a statement whose fields are all non-random in the call and whose current values violate it", "C01 constraint_violated; C02 missed_unsat", "caught as built (x-only statements of the multi-statement programs)"),
+ ("C04-m4", "C04", "/tmp/wt2_C04", 2, "unique_vec compares each vector with its neighbour only",
+  "three or more lists in one unique_vec and a small element domain", "C04 list_constraint_violated (uvec2x3, uvec2x4)", "missed at first: unique_vec over 3 and 4 lists added"),
+ ("C04-m5", "C04", "/tmp/wt2_C04", "/tmp/wt2_C04/_mut/extra/index_sign.diff", "foreach index literal built as unsigned",
+  "index arithmetic compared with the elements of a signed list", "C04 list_constraint_violated (fixed1/int/l[i]>=i+1)", "caught as built"),
+ ("C05-m4", "C05", "/tmp/wt2_C05", 1, "guarded soft takes the running counter as its priority", "guarded soft conflicting with an earlier plain soft after two more softs",
+  "C05 not_greedy_maximal", "caught as built (same idea as C05-m2, other line)"),
+ ("C05-m5", "C05", "/tmp/wt2_C05", 2, "else guard written to the bottom of the guard stack", "soft in an else branch at nesting depth >= 2 or in an else_if chain",
+  "C05 not_greedy_maximal", "caught as built"),
+ ("C05-m6", "C05", "/tmp/wt2_C05", 3, "one-at-a-time fallback skips the lowest-priority soft", "three softs in one set, a conflict among the later ones, the first compatible with what is kept",
+  "C05 not_greedy_maximal", "caught as built"),
+ ("C12-m4", "C12", "/tmp/wt2_C12", 1, "coverpoint shape comparison accepts a prefix of the bin list (== became <=)", "two instances differing by trailing extra bins, the smaller created first",
+  "C12 type_hits", "missed at first: every world started from the full shape; worlds that start from the small shape added"),
+ ("C12-m5", "C12", "/tmp/wt2_C12", 2, "weights are lost when the options are cloned for the type covergroup", "non-default weight and a type-level query",
+  "C12 coverage_value (config weights)", "caught as built"),
+ ("C13-m4", "C13", "/tmp/wt2_C13", 3, "instance-name uniquifier records the base name instead of the generated one", "three or more same-named instances in one report",
+  "C13 instance_names_distinct", "missed at first: instances were compared as multisets of content; the report's instance names under one type must now be pairwise distinct"),
+ ("C16-m4", "C16", "/tmp/wt2_C16", 2, "foreach.__exit__ returns early when its body raised", "user code raising inside a foreach body",
+  "C16 shared_state_not_idle", "caught as built"),
+ ("C16-m5", "C16", "/tmp/wt2_C16", 3, "failure diagnosis releases only the failing rand sets' solver nodes", "failing call with solve_fail_debug=1, a second independent rand set, a later call",
+  "C16 model_residue (unsat_debug faults)", "missed at first: failing calls that ask for diagnostics added as fault positions"),
+ ("C17-m4", "C17", "/tmp/wt2_C17", 2, "post_randomize reaches list elements within the solved size only", "random-size list of objects whose solved size is smaller than the number of populated elements",
+  "C17 callback_count (partial lists)", "missed at first: random-size object lists were pinned to their populated size; partial lists added"),
+ ("C18-m4", "C18", "/tmp/wt2_C18", 1, "signed list element read subtracts 2^w from an already signed value", "negative element written by the solver, read by index",
+  "C18 randlist_read", "caught as built"),
+ ("C18-m5", "C18", "/tmp/wt2_C18", 2, "part-select write stores the merged bits without normalisation", "slice write that changes the sign bit or reaches above the width",
+  "C18 psel_write", "caught as built"),
+ ("C18-m6", "C18", "/tmp/wt2_C18", 3, "off-by-one in the sign test of scalar set_val", "value congruent to 2^(w-1)", "C18 scalar_member", "caught as built"),
+ ("C20-m4", "C20", "/tmp/wt2_C20", 1, "ordering map shared across calls (class-level dict)", "the same object randomized with different inline directives on successive calls",
+  "C20 dead_end / earlier_directive_outlives_its_call", "missed at first: direct programs with directives that change between calls added"),
+ ("C20-m5", "C20", "/tmp/wt2_C20", 2, "solve_order(x, <list field>) keyed on the list object instead of its elements", "a list field on the after side",
+  "C20 not_uniform (list_after)", "missed at first: list on the after side added; the new programs also exposed a genuine defect (68b9e07)"),
+ ("C20-m6", "C20", "/tmp/wt2_C20", 3, "toposort generator shared by all rand sets", "two independent ordered pairs in one call",
+  "C20 not_uniform (two_groups)", "missed at first: two ordered groups in one call added"),
 ]
 
 def main():
@@ -135,7 +171,7 @@ def main():
         have = os.path.exists(d + "/meta.json")
         if res and res.get("demo_clean_rc") == 0 and res.get("demo_mutant_rc") == 1 and res.get("suite_rc") == 0:
             os.makedirs(d, exist_ok=True)
-            shutil.copy("%s/_mut/m%d.diff" % (wt, k), d + "/patch.diff")
+            shutil.copy(k if isinstance(k, str) else "%s/_mut/m%d.diff" % (wt, k), d + "/patch.diff")
             shutil.copy("/tmp/vm_results/%s/demo.py" % mid, d + "/demo.py")
             meta = {"id": mid, "breaks_property": prop, "change": what, "needs_in_order_to_manifest": needs,
                     "origin": "sub-agent given only the property text and a scratch worktree",
@@ -145,6 +181,8 @@ def main():
                     "detected_by": det, "note": note,
                     "demo_cmd": "git -C /repo apply /verif/seeded/%s/patch.diff && (cd /tmp && PYTHONPATH=/repo/src /venv/bin/python /verif/seeded/%s/demo.py); git -C /repo checkout -- ." % (mid, mid)}
             txt = open(d + "/demo.py").read().replace("/tmp/vm_%s" % mid, "/repo")
+            if wt.startswith("/tmp/wt2_"):
+                meta["origin"] = "second-round sub-agent (fresh; given only the property text and a scratch worktree)"
             open(d + "/demo.py", "w").write(txt)
             json.dump(meta, open(d + "/meta.json", "w"), indent=1)
             suite = res["suite_last_line"]
